@@ -41,6 +41,9 @@ var c08Cursor = []cursorObl{
 	{"(*Reader).SeekToRow", "rowIndex", "nilerr", ""},
 	{"(*reader).ReadRows", "rowIndex", "value", ""},
 	{"(*reader).SeekToRow", "rowIndex", "nilerr", ""},
+	// Reset rewinds: whichever way the underlying rows are rewound, the row index goes back to the start
+	{"(*reader).Reset", "rowIndex", "nilerr", ""},
+	{"(*rowGroupRows).Reset", "rowIndex", "nilerr", ""},
 	{"(*columnPages).SeekToRow", "index", "nilerr", ""},
 	{"(*concatenatingRowsWrapper).ReadRows", "rowIndex", "value", ""},
 	{"(*mergedRowGroupRows).ReadRows", "rowIndex", "value", ""},
